@@ -38,6 +38,7 @@ import (
 	"strconv"
 	"strings"
 	"sync"
+	"sync/atomic"
 	"time"
 
 	"gcverif/internal/hx"
@@ -429,6 +430,12 @@ func doName(k []byte) result {
 	return r
 }
 
+var (
+	casesBuilt int64
+	tagMu      sync.Mutex
+	tagSeen    = map[string]string{}
+)
+
 func doCase(w *worker, kind string, entry []byte, list []kv) result {
 	script, status := build(kind, entry, list)
 	if status != "" {
@@ -457,6 +464,24 @@ func doCase(w *worker, kind string, entry []byte, list []kv) result {
 		return r
 	}
 	// the property itself, on the implementation alone
+	// The here-document tag is the only thing between a value and the shell: it has to be fresh for every
+	// script (26^10 possibilities - a repeat within one process means the generator restarts or is shared).
+	// Pools and caches behind the builders are emptied now and then (two GC cycles drop a sync.Pool).
+	if n := atomic.AddInt64(&casesBuilt, 1); n%61 == 0 {
+		runtime.GC()
+		runtime.GC()
+	}
+	if len(list) > 0 && tagShape.MatchString(tag) {
+		tagMu.Lock()
+		first, dup := tagSeen[tag]
+		if !dup {
+			tagSeen[tag] = line
+		}
+		tagMu.Unlock()
+		if dup {
+			r.oracle = append(r.oracle, fmt.Sprintf("FAIL tagfresh %s the here-document tag %s was already used by an earlier script of this process (%s): a value holding that line would end the document early", line, tag, first))
+		}
+	}
 	if len(list) > 0 && !tagShape.MatchString(tag) {
 		r.oracle = append(r.oracle, fmt.Sprintf("FAIL tagshape %s the here-document tag %q is not EOF + 10 random capitals", line, tag))
 	}
